@@ -167,31 +167,33 @@ theorem reinit_keys (st : NodeSt) (req : ReinitReq) (now : Time) (payloadOf : Ta
         simp only [saveFSM]
         exact lookupS_assocSet_eq _ _ _
 
-theorem takeWhile_all {α : Type} (q : α → Bool) (l : List α) (h : ∀ x ∈ l, q x = true) : l.takeWhile q = l := by
-  induction l with
-  | nil => rfl
-  | cons x rest ih =>
-    simp only [List.takeWhile_cons, h x (List.mem_cons_self), ↓reduceIte]
-    rw [ih (fun y hy => h y (List.mem_cons_of_mem _ hy))]
-
-theorem takeWhile_stop {α : Type} (q : α → Bool) (l after : List α) (p : α) (h : ∀ x ∈ l, q x = true) (hp : q p = false) :
-    (l ++ p :: after).takeWhile q = l := by
-  induction l with
-  | nil => simp [hp]
-  | cons x rest ih =>
-    simp only [List.cons_append, List.takeWhile_cons, h x (List.mem_cons_self), ↓reduceIte]
-    rw [ih (fun y hy => h y (List.mem_cons_of_mem _ hy))]
-
-/-- **KNOWN FINDING C20-early-signing-proposal, on the model.** The replay is cut at the first signing proposal in the file,
-whatever round it names and whether or not any node ever accepted it: the messages after it - the rest of the key
-generation, if the proposal was posted early - are not replayed. (`GenerateReDKGMessage` cuts the file the same way.)
-reinitdiff shows the consequence on real nodes: scenario `early-signing-proposal=true`. -/
-theorem early_signing_proposal_cuts_the_replay (self R : String) (skip0 : Bool) (now : Time) (payloadOf : Tasks.Msg → Bytes) (st : NodeSt)
-    (before after : List InnerMsg) (p : InnerMsg) (hp : p.msg.event = "event_signing_start")
-    (hb : ∀ im ∈ before, im.msg.event ≠ "event_signing_start") :
-    reinitLoop self R skip0 now payloadOf st (before ++ p :: after) = reinitLoop self R skip0 now payloadOf st before := by
+/-- **signing messages do not matter** (the repair of the former known finding C20-early-signing-proposal). A message of
+the signing phase - a signing proposal posted while the key generation had hardly begun, accepted by nobody; the batches of
+another round; partial signatures, reconstructed signatures - changes nothing about the replay, wherever it stands in the
+file: in particular the key-generation messages AFTER it are replayed. Until fix `c405ec9` the file and the replay were cut
+at the first `event_signing_start`. -/
+theorem signing_messages_do_not_matter (self R : String) (skip0 : Bool) (now : Time) (payloadOf : Tasks.Msg → Bytes) (st : NodeSt)
+    (before after : List InnerMsg) (p : InnerMsg) (hp : signingPhaseEvent p.msg.event = true) :
+    reinitLoop self R skip0 now payloadOf st (before ++ p :: after) = reinitLoop self R skip0 now payloadOf st (before ++ after) := by
   unfold reinitLoop beforeSigning
-  have hall : ∀ im ∈ before, (im.msg.event != "event_signing_start") = true := fun im him => by simpa using hb im him
-  rw [takeWhile_stop _ before after p hall (by simp [hp]), takeWhile_all _ before hall]
+  simp [List.filter_append, List.filter_cons, hp]
+
+/-- what the pinned tree did, for the record: everything after the first signing proposal was dropped -/
+def cutAtFirstSigningProposal (inner : List InnerMsg) : List InnerMsg := inner.takeWhile (fun im => im.msg.event != "event_signing_start")
+
+/-- on a log whose signing phase begins after the key generation (every log of an undisturbed ceremony) nothing has changed:
+the messages before the first signing proposal are replayed, exactly those, if only signing messages follow it -/
+theorem same_as_the_cut_on_ordinary_logs (keygen signing : List InnerMsg)
+    (hk : ∀ im ∈ keygen, signingPhaseEvent im.msg.event = false) (hs : ∀ im ∈ signing, signingPhaseEvent im.msg.event = true) :
+    beforeSigning (keygen ++ signing) = keygen := by
+  unfold beforeSigning
+  rw [List.filter_append]
+  have h1 : keygen.filter (fun im => !signingPhaseEvent im.msg.event) = keygen := by
+    apply List.filter_eq_self.mpr
+    intro im him; simp [hk im him]
+  have h2 : signing.filter (fun im => !signingPhaseEvent im.msg.event) = [] := by
+    apply List.filter_eq_nil_iff.mpr
+    intro im him; simp [hs im him]
+  rw [h1, h2, List.append_nil]
 
 end Dc4bcVerif.Props.C20Node
